@@ -33,6 +33,8 @@ func init() {
 		ruleV16(c, "C11.V16")
 		ruleDirKind(c, "C11.V17")
 		ruleT3(c, "C11.V18")
+		ruleP4(c, "C11.V19")
+		ruleL1(c, "C11.V20")
 	}
 }
 
